@@ -153,7 +153,7 @@ pub(crate) fn escaped_identifier_exact(s: Span) -> IResult<Span, EscapedIdentifi
 #[tracable_parser]
 pub(crate) fn escaped_identifier_impl(s: Span) -> IResult<Span, Locate> {
     let (s, a) = tag("\\")(s)?;
-    let (s, b) = is_not(" \t\r\n")(s)?;
+    let (s, b) = is_not(" \t\r\n\x0c")(s)?;
     let a = concat(a, b).unwrap();
     Ok((s, into_locate(a)))
 }
